@@ -21,6 +21,7 @@ from .validation import _validate
 from .read import HEADER_SCHEMA, SYNC_SIZE, MAGIC, reader
 from .logical_writers import LOGICAL_WRITERS
 from .schema import extract_record_type, extract_logical_type, parse_schema
+from ._schema_py import _embed_external_definitions
 from ._write_common import _is_appendable
 from .types import Schema, NamedSchemas
 
@@ -466,6 +467,10 @@ class GenericWriter(ABC):
             self.schema = parse_schema(schema, self._named_schemas)
 
         if isinstance(schema, dict):
+            if "__named_schemas" in schema:
+                # Named types that were parsed separately and are only referred
+                # to by name must be written into the header as well
+                schema = _embed_external_definitions(schema, schema["__named_schemas"])
             schema = {
                 key: value
                 for key, value in schema.items()
